@@ -110,5 +110,5 @@ def bounded(ctx):
 
 def units(ctx):
     keys = ["blobs.c:dset_initialise", "blobs.c:dset_new", "blobs.c:dset_find", "blobs.c:dset_link", "blobs.c:dset_makeunion",
-            "blobs.c:dset_compress", "connectedpixels.c:connectedpixels"]
+            "blobs.c:dset_compress", "connectedpixels.c:connectedpixels", "sparse_image.c:sparse_connectedpixels"]
     return [CUnit(k) for k in keys] + [BoundedUnit("partition-vs-bfs", bounded, "all masks up to 3x4 (thorough 4x4, 3x6), chains, random up to 24x24 and 24 (thorough 120) random frames up to 130x130")]
